@@ -106,11 +106,12 @@ inductive Ev where
   | tick | send | sendError | abortSeen
   -- RPC layer
   | callRpc | rpcNotActive | rpcPass | rpcSourceGone | flagOn | flagOff | flagRefresh
+  | scStartRefused | scStopNotActive
 deriving DecidableEq, Repr
 
 /-- environment events: new calls and the RPC layer's flag updates -/
 def Ev.isEnv : Ev → Bool
-  | .callStart | .callStop | .callRpc | .flagOn | .flagOff | .flagRefresh => true
+  | .callStart | .callStop | .callRpc | .flagOn | .flagOff | .flagRefresh | .scStartRefused | .scStopNotActive => true
   | _ => false
 
 def applyW (w : WEff) (b : Bool) : Bool :=
@@ -225,6 +226,9 @@ def step (s : St) (e : Ev) : Option St :=
   -- `SourceControl.Start` sets the flag after `Start` returned nil: some run has been started
   | .flagOn => if s.lp ≠ .off ∨ s.runOver then some { s with flag := true } else none
   | .flagOff => some { s with flag := false }
+  -- `SourceControl.Start` / `SourceControl.Stop` turned away by the RPC layer's flag (no effect on the source)
+  | .scStartRefused => if s.flag = true then some s else none
+  | .scStopNotActive => if s.flag = false then some s else none
   -- `handlePossibleStoppedSource` reads `Running()` (a lock section)
   | .flagRefresh => if s.kDecided = 0 then some { s with flag := s.flag && (s.st = .active) } else none
 
@@ -272,7 +276,7 @@ def starters (s : St) : Nat := s.sEnter + (if s.sp = .idle then 0 else 1)
 
 /-- sites that are pure gates / duplicates and carry no model transition -/
 def droppedSites : List String :=
-  ["start.beforeSample", "start.activated", "loop.select", "stop.beforeWait", "rpc.sent"]
+  ["start.beforeSample", "start.activated", "loop.select", "stop.beforeWait", "rpc.sent", "sc.start.enter", "sc.stop.enter"]
 
 /-- first letter of a role token (`S1` → `S`) -/
 def roleLetter (r : String) : String := (r.take 1).toString
@@ -319,6 +323,11 @@ def evOf (role : String) (site : String) (fuel : Nat) (nrep : Nat) (w : WEff) : 
   | "rpc.notActive" => some .rpcNotActive
   | "rpc.beforeSend" => some .rpcPass
   | "rpc.sourceGone" => some .rpcSourceGone
+  | "sc.flagOn" => some .flagOn
+  | "sc.refreshed" => some .flagRefresh
+  | "sc.start.failed" => some .flagOff
+  | "sc.start.refused" => some .scStartRefused
+  | "sc.stop.notActive" => some .scStopNotActive
   | "flag.on" => some .flagOn
   | "flag.off" => some .flagOff
   | "flag.refresh" => some .flagRefresh
@@ -495,7 +504,16 @@ def sitesOf (role : String) (toks : List Tok) : List String :=
 def expectedRet (role : String) (toks : List Tok) : Option Nat :=
   let ss := sitesOf role toks
   let r := roleLetter role
-  if r == "S" then
+  if ss.contains "sc.start.enter" then      -- SourceControl.Start
+    if ss.contains "sc.start.refused" then some 1
+    else if ss.contains "start.runStarted" then some 0
+    else if ss.contains "sc.start.failed" then some 1
+    else some 2
+  else if ss.contains "sc.stop.enter" then  -- SourceControl.Stop: the error of the source's Stop is ignored
+    if ss.contains "sc.stop.notActive" then some 1
+    else if ss.contains "stop.notActive" || ss.contains "stop.alreadyStopping" || ss.contains "stop.cleaned" then some 0
+    else some 2
+  else if r == "S" then
     if ss.contains "start.runStarted" then some 0
     else if ss.contains "state.startRejected" || ss.contains "state.inactive" || ss.contains "run.deactivate" then some 1
     else some 2
@@ -518,7 +536,7 @@ def chkC10 (ln : Line) (_toks : List Tok) (calls : List (String × Nat)) (fin : 
   else if bad then
     some "C10:stop-waits-on-next-run a Stop call parked before RunDoneWait waited on a run started after it (wait group reused)"
   else if ln.kind != "udp" && calls.any (fun c => roleLetter c.1 == "S" && c.2 != 0 &&
-      !(sitesOf c.1 _toks).contains "start.startRunFailed") then
+      !(sitesOf c.1 _toks).contains "start.startRunFailed" && !(sitesOf c.1 _toks).contains "sc.start.refused") then
     some "C10:restart-failed a Start call on an inactive source was refused or failed"
   else if calls.any (fun c => roleLetter c.1 == "S" && c.2 == 1) && fin.res != 0 then
     some "C10:failed-start-keeps-resources a failed Start left the sockets / reader goroutines of Sample open; the next Start fails to bind"
@@ -557,12 +575,28 @@ def lastIssuedIsStop : List Tok → Bool → Bool
     else if t.site == "start.enter" then lastIssuedIsStop ts false
     else lastIssuedIsStop ts b
 
+/-- RPC layer, implementation only: a `SourceControl.Start` issued when every `SourceControl.Stop` issued so far has
+returned, at least one of them since the last accepted Start, must not be refused with "already have active
+source".  (`note.ret*` is logged by a call's own goroutine when it returns.) -/
+def chkRpcRestart : List Tok → Nat → Bool → Option String
+  | [], _, _ => none
+  | t :: ts, inflight, stopRet =>
+    if t.site == "sc.stop.enter" then chkRpcRestart ts (inflight + 1) stopRet
+    else if roleLetter t.role == "K" && t.site.startsWith "note.ret" then chkRpcRestart ts (inflight - 1) true
+    else if t.site == "sc.flagOn" then chkRpcRestart ts inflight false
+    else if t.site == "sc.start.refused" then
+      if stopRet && inflight == 0 then
+        some "C10:restart-refused-after-stops every Stop request has returned but the RPC layer still believes a source is active: Start is refused (isSourceActive not refreshed)"
+      else chkRpcRestart ts inflight stopRet
+    else chkRpcRestart ts inflight stopRet
+
 /-- Oracle clauses that need nothing but the implementation's output: every call returned, the last call issued
 was a Stop ⇒ the source reports Inactive; a Start issued in these schedules (always on a source whose Stops have
 returned) is never refused by `SetStateStarting`. -/
 def chkImplOnly (ln : Line) (toks : List Tok) (calls : List (String × Nat)) (fin : Fin) : Option String :=
   if fin.hang != 0 || calls.any (fun c => c.2 == 2) then
     some "C10:hang a Start/Stop call did not return (watchdog)"
+  else if (chkRpcRestart toks 0 false).isSome then chkRpcRestart toks 0 false
   else if lastIssuedIsStop toks false && fin.st != 0 then
     some s!"C10:not-inactive-after-stops all Stop calls returned (no Start issued since) but GetState() is {fin.st}, not Inactive"
   else if ln.sched != "stopAt" && ln.kind != "udp" && countSite toks "state.startRejected" > 0 then
@@ -612,6 +646,8 @@ def judgeRun (ln : Line) (toks0 : List Tok) (calls : List (String × Nat)) (fin 
             (if countSite toks "loop.gotRequest" > 0 then ["request"] else []) ++
             (if countSite toks "start.startRunFailed" > 0 then ["startRunFailed"] else []) ++
             (if ln.sched == "stopDecided" then ["gated", "selfEndInsideStop"] else []) ++
+            (if ln.sched == "rpc" then ["rpcLayer", "gated"] else []) ++
+            (if countSite toks "sc.start.refused" > 0 then ["startRefusedWhileActive"] else []) ++
             (if ln.sched == "rnd" || ln.sched == "stopAt" || ln.sched == "reuse" || ln.sched == "timing" then ["gated"] else []) ++
             (if n > 60 then ["long"] else [])
           .ok tags
